@@ -120,6 +120,7 @@ func genC10(t *rapid.T) C10Case {
 	var c C10Case
 	m := &trackModel{}
 	nOwned := 0
+	bursted := false
 	var live []int // owned slices not yet mutated
 	addLeaf := func() {
 		s := rapid.SampledFrom(prog.HistShapes).Draw(t, "shape")
@@ -163,6 +164,26 @@ func genC10(t *rapid.T) C10Case {
 			for q := 0; q < ownedCount(st); q++ {
 				live = append(live, nOwned)
 				nOwned++
+			}
+			if !bursted && rapid.IntRange(0, 19).Draw(t, "burst") == 0 {
+				bursted = true
+				if rapid.Bool().Draw(t, "burstkind") {
+					// a chain of 50..70 unary operations on the newest tensor: a deep graph
+					for b := rapid.IntRange(50, 70).Draw(t, "burstlen"); b > 0; b-- {
+						u := prog.Node{Op: []string{"sin", "tanh", "cos"}[b%3], In: []int{len(m.e) - 1}}
+						c.Steps = append(c.Steps, HStep{Kind: "op", Node: &u})
+						m.addOp(u, m.e[len(m.e)-1].shape)
+					}
+					nsteps += 75
+				} else {
+					// Shape() of one tensor read 40 times, every returned slice overwritten at once
+					x := len(m.e) - 1
+					for b := 0; b < 40; b++ {
+						c.Steps = append(c.Steps, HStep{Kind: "shape", X: x}, HStep{Kind: "mutate", X: nOwned, Tracked: b%2 == 0})
+						nOwned++
+					}
+					nsteps += 80
+				}
 			}
 		case k <= 9:
 			x := rapid.IntRange(0, len(m.e)-1).Draw(t, "bp")
